@@ -357,6 +357,29 @@ def unit_long_runs(a):
     return stats
 
 
+DENSE = ["TagLine", "ScenarioLine", "ExamplesLine", "RuleLine", "StepLine", "TableRow", "BackgroundLine", "Comment"]
+
+
+def unit_dense(a):
+    """deep but narrow: all sequences over the 8 structural kinds after a scenario step (several look-aheads in a row,
+    rules after outlines, tags after tags ...)"""
+    import itertools
+    stats = Stats()
+
+    def gen():
+        n = 0
+        for L in range(1, a["L"] + 1):
+            for tup in itertools.product(DENSE, repeat=L):
+                n += 1
+                if n % a["nshards"] != a["shard"]:
+                    continue
+                if tup.count("TagLine") == 0:
+                    continue  # covered by the plain prefix sweep
+                yield {"sub": "seq", "kinds": ["FeatureLine", "ScenarioLine", "StepLine"] + list(tup), "flavour": "pure"}
+    sweep(stats, gen(), check_seq)
+    return stats
+
+
 @st.composite
 def st_walk(draw):
     """random walk on the grammar automaton with occasional deviations"""
@@ -411,6 +434,7 @@ def run(ctx):
     ctx.units("prefix-sequences", unit_prefixes, [{"L": L, "shard": i, "nshards": ns} for i in range(ns)], procs=ns)
     ctx.units("long-lookahead-runs", unit_long_runs, [{"lengths": list(range(0, 40)) + [48, 64, 100, 128, 129, 256, 257] + ([] if q else [500, 1023, 1024, 1025, 2000, 4096, 4097]),
                                                        "shard": i, "nshards": 16} for i in range(16)], procs=16)
+    ctx.units("dense-structural-sequences", unit_dense, [{"L": 6 if q else 7, "shard": i, "nshards": 16} for i in range(16)], procs=16)
     ctx.units("random-walks", unit_walks, [{"n": 600 if q else 6000, "seed": ctx.seed, "shard": i} for i in range(8 if q else 16)], procs=16)
     from . import magnitude
     magnitude.run_big(ctx, "c02_text", "check_text", "text")
